@@ -178,6 +178,11 @@ def builders():
         N = C.ExternalOperator(f, g, function_space=V, derivatives=(0, 1))
         return N * TestFunction(V) * dx
 
+    @add("two meshes that occur only inside the integrand (not integration domains)")
+    def _():
+        m0, m1, m2 = new_mesh(), new_mesh(), new_mesh()
+        return CellVolume(m1) * ufl.Circumradius(m2) * ufl.Measure("dx", domain=m0) + ufl.Circumradius(m1) * CellVolume(m2) * CellVolume(m2) * ufl.Measure("ds", domain=m0)
+
     @add("tetrahedron, quadratic geometry")
     def _():
         m = new_mesh(ufl.tetrahedron, 2)
